@@ -22,7 +22,7 @@ ASSUMPTIONS = ["removal queue disabled and removal lock period 0 in the correspo
 UNPROVED = [
     "clp.EndBlocker is proved solvent under EndBlockOK: LPPD block rate in [0,1] (enforced by ValidateBasic) and, in distribute mode, every rewarded pool has a provider record; the latter is an invariant of reachable states (the last provider can never withdraw 100%: ErrPoolTooShallow) argued in DESIGN.md, not proved; without it the code records a reward on the pool while the coins are burned",
     "margin open/close/interest messages are outside the clp model slice of the theorems (custody and liabilities enter as configured pool fields); for them the backing identity is judged on every state of the margin family (chk c01.marginbacking), not proved",
-    "exact-equality clause (slack changes only by the decommission remainder) is judged on implementation states but not proved",
+    "exact-equality clause: proved for every history of user messages (create, add, remove, remove-units, swap on both routes, bucket funding — messages_keep_slack_partial, reachable_exact_messages_partial: from genesis the module account holds exactly the recorded amounts); for decommissions (remainder <= the refund budget) and for the block hooks (minted rewards that cannot be paid are burned again) the equality is judged on every implementation state (chk c01.exact), not proved (Exact_Statement is the full statement)",
 ]
 MANIFEST = {
     "text": "Solvency invariant (module balance covers pools + custody + buckets for every token) proved in Lean for every history of AMM messages and hooks over an exact model of the clp handlers; model tied to the Go keeper by state-for-state differential execution; the invariant predicate itself judged on every implementation state.",
